@@ -21,7 +21,7 @@ DOC = {
         'C02.R4': 'no mutating primitive reachable from run_script has a mutated-path argument with role KEEP',
         'C02.R5': 'the regular-file filter and the length filter run before FileSubGroup::group on every path',
         'C02.R6': 'for HardLink and RefLink the group is partitioned by device before partition()',
-        'C02.R7': 'the modification check covers the whole group, including the files that will be retained (re-evaluates C04.R2, C04.R3)',
+        'C02.R7': 'the modification check covers the whole group, including the files that will be retained (re-evaluates C04.R1, C04.R2, C04.R3)',
     },
     'not_decided': 'that the members of a group really are identical (C01); the symlink-as-only-retained-copy case under --isolate -S (documented limitation D15); report round trip (C10)',
     'assumptions': ['the table of mutating primitives is complete'],
@@ -339,6 +339,7 @@ def r6(ctx):
 def r7(ctx):
     from . import c04
     before = len(ctx.obligations)
+    c04.r1(ctx)
     c04.r2(ctx)
     c04.r3(ctx)
     for o in ctx.obligations[before:]:
